@@ -12,7 +12,8 @@ for d in sorted(glob.glob(os.path.join(here, 'seeded/*/meta.json'))):
 per_round = {}
 for r in rows:
     per_round.setdefault(r[0], []).append(r)
-missed = [r for r in rows if "MISSED" in r[5] or "NOT DETECTED" in r[5]]
+missed = [r for r in rows if "MISSED" in r[5] or "NOT DETECTED" in r[5] or "NOT JUDGED" in r[5]]
+notjudged = [r[1] for r in rows if "NOT DETECTED" in r[5] or "NOT JUDGED" in r[5]]
 out = ["\n### 11.6 Seeded changes produced by independent sub-agents\n\n"
 "Sub-agents were each given only the text of one to four properties and a scratch worktree of /repo (nothing from\n"
 "/verif; from round 2 on also the list of ideas already used, so that they would look elsewhere), and asked for changes\n"
@@ -24,9 +25,9 @@ out = ["\n### 11.6 Seeded changes produced by independent sub-agents\n\n"
 "through VERIF_REPO with evidence redirected; nothing is ever applied to /repo itself). `tools/seedall.sh` re-runs all.\n\n"]
 out.append("| round | changes | missed at first |\n|---|---|---|\n")
 for k in sorted(per_round):
-    out.append("| %d | %d | %d |\n" % (k, len(per_round[k]), len([r for r in per_round[k] if 'MISSED' in r[5] or 'NOT DETECTED' in r[5]])))
+    out.append("| %d | %d | %d |\n" % (k, len(per_round[k]), len([r for r in per_round[k] if 'MISSED' in r[5] or 'NOT DETECTED' in r[5] or 'NOT JUDGED' in r[5]])))
 out.append("| all | %d | %d |\n\n" % (len(rows), len(missed)))
-out.append("**All %d but one (r4-c12-filesonly-glob-memo, not judged on purpose) are detected by the quick tier now.** Every miss led to a wider workload or a stronger oracle, never to a\n"
+out.append("**All %d but " + str(len(notjudged)) + " (" + ", ".join(notjudged) + ": not judged on purpose, see their rows) are detected by the quick tier now.** Every miss led to a wider workload or a stronger oracle, never to a\n"
 "special case for the change; after each strengthening the check was re-run on the unchanged tree (which several times\n"
 "exposed a mistake of the new workload itself, corrected before going on) and against the earlier seeds. The misses:\n\n"
 "| seeded change | property | needs to manifest | why it was missed / what was strengthened |\n|---|---|---|---|\n" % len(rows))
@@ -34,7 +35,7 @@ for r in missed:
     out.append("| %s | %s | %s | %s |\n" % (r[1], r[2], r[3].replace('|', '/'), r[5].replace('|', '/')))
 out.append("\nThe full list:\n\n| seeded change | breaks | needs to manifest | caught by (quick) |\n|---|---|---|---|\n")
 for r in rows:
-    out.append("| %s | %s | %s | %s |\n" % (r[1], r[2], r[3].replace('|', '/'), r[4].replace('|', '/')))
+    out.append("| %s | %s | %s | %s |\n" % (r[1], r[2], r[3].replace('|', '/'), (r[4] or 'not judged').replace('|', '/')))
 out.append("\nRuns against the seeds also exposed faults of the machinery itself: the extra `.spok/cache.json.bak` of\n"
 "`c10-cache-backup-recovery` was reported by C01 as unexpected project content although C01 holds for that change (extra\n"
 "files are now part of the state); the 10 s quiescence polling of C18 made leaking variants cost 10 s per call (workers\n"
